@@ -773,6 +773,20 @@ fn run_zeroize(cfg: &Value) -> Value {
             drop(w);
             zscan::disarm()
         },
+        "opening_clone_from" => {
+            // an opening object overwritten through clone_from by one with MORE blinding factors (and the other way round): the buffer the old
+            // content lived in must be wiped before it is released, whatever way the new content gets in
+            let mut small = CommitmentOpening::new(marker_u64, (0..x).map(|_| marker_scalar()).collect());
+            let mut large = CommitmentOpening::new(marker_u64, (0..x + 3).map(|_| marker_scalar()).collect());
+            let other_large = large.clone();
+            let other_small = small.clone();
+            zscan::arm();
+            small.clone_from(&other_large);
+            large.clone_from(&other_small);
+            drop(small);
+            drop(large);
+            zscan::disarm()
+        },
         "witness_popped" => {
             // openings (a public field) shortened by moving elements out after construction: the images the moved-out openings leave in the
             // vector's spare capacity (their values) must be wiped before the block is released
@@ -836,7 +850,12 @@ fn run_zeroize(cfg: &Value) -> Value {
             let mut openings = Vec::new();
             let mut commitments = Vec::new();
             for _ in 0..m {
-                let r: Vec<Scalar> = (0..x).map(|_| marker_scalar()).collect();
+                let mut r: Vec<Scalar> = (0..x).map(|_| marker_scalar()).collect();
+                // zero_last_blinding: a mask whose LAST component is the zero scalar (a legal mask): whatever the verifier does when it meets it,
+                // the components recovered before it must not be released unwiped
+                if cfg["zero_last_blinding"].as_bool().unwrap_or(false) && x >= 2 {
+                    r[x - 1] = Scalar::ZERO;
+                }
                 commitments.push(params.pc_gens().commit(&Scalar::from(marker_u64), &r).unwrap());
                 openings.push(CommitmentOpening::new(marker_u64, r));
             }
@@ -915,8 +934,7 @@ fn run_zeroize(cfg: &Value) -> Value {
                     let mut ts = vec![Transcript::new(b"symx context")];
                     zscan::arm();
                     let r = RangeProof::verify_batch(&mut ts, &[st.clone()], &[p], VerifyAction::RecoverAndVerify);
-                    let masks = r.unwrap();
-                    drop(masks);
+                    drop(r);
                     zscan::disarm()
                 }
             }
